@@ -187,7 +187,7 @@ func (exp *exporter) BeginDialogue() {
 		dmark = "–"
 	}
 	w := ctx.W()
-	fmt.Fprint(w, dmark)
+	fmt.Fprint(w, html.EscapeString(dmark))
 }
 
 func (exp *exporter) BeginDisplayBlock(tag string, id string) {
